@@ -404,3 +404,14 @@ Proof.
   - cbn [sinit snodes]. constructor; [reflexivity|constructor].
   - cbn [sinit snodes]. constructor; [split; reflexivity|constructor].
 Qed.
+
+(* the default world of an unmarked lazily evaluated item is never read: at a logging call every
+   cell the walk reads ([swalk_ext]) has been marked *)
+Theorem spec_marked hi root its w m :
+  all_marked (mark_all w (log_marks hi root its) m) (log_ids hi root ++ lazy_ids its).
+Proof.
+  unfold log_marks. destruct its as [|it r]; cbn [is_nil].
+  - cbn [lazy_ids map concat]. rewrite app_nil_r. apply all_marked_mark_all.
+  - apply Forall_forall. intros id Hin. apply marked_mark_all_in.
+    apply in_app_iff in Hin as [Hin|Hin]; apply in_app_iff; [left; now apply (log_ids_incl hi root)|now right].
+Qed.
